@@ -62,6 +62,8 @@ def _penny_menu():
 
 
 MENU_PENNY = _penny_menu()
+# the persistence type says what happens to a resting order at in-play / at the close: it has no say in matching
+MENU_PERS = {"moc": [dict(t, pers="MARKET_ON_CLOSE") for t in MENU], "persist": [dict(t, pers="PERSIST") for t in MENU]}
 PENNY_LADDER = (1.5, 2.0, 2.5, 3.0, 3.5)
 
 
@@ -93,6 +95,9 @@ def _sat(side, price, limit, tol=F(0)):
 def _one(args):
     levels, bpe, full_match, trades = args[:4]
     MENU = MENU_PENNY if (len(args) > 4 and args[4] == "penny") else globals()["MENU"]
+    pers_mode = args[4] if len(args) > 4 and args[4] in MENU_PERS else None
+    if pers_mode:
+        MENU = MENU_PERS[pers_mode]
     # "avail": config.simulation_available_prices - resting orders are (also) filled from prices that become
     # available later; the limit and the order size bind there all the same (clause a, oversize)
     avail_mode = len(args) > 4 and args[4] == "avail"
@@ -125,7 +130,7 @@ def _one(args):
     best_back = max(avail) if avail else None
     best_lay = min(avail) if avail else None
     sig = []
-    case = dict(levels=levels, bpe=bpe, full_match=full_match, trades=trades, menu="penny" if MENU is MENU_PENNY else ("avail" if avail_mode else ("arrival" if arrival else "std")))
+    case = dict(levels=levels, bpe=bpe, full_match=full_match, trades=trades, menu="penny" if MENU is MENU_PENNY else ("avail" if avail_mode else ("arrival" if arrival else (pers_mode or "std"))))
     for t, o in zip(MENU, st.known):
         side, lim, size = t["side"], t["price"], t["size"]
         fok = t["tif"] == "FILL_OR_KILL"
@@ -238,6 +243,61 @@ def _one(args):
     return dict(violations=_dedup(out), counts=counts, outcome=core.stable_hash(sig))
 
 
+def _two_clients(args):
+    """two clients whose best-price-execution settings differ; an order of the strategy's client is replaced 1-3 times
+    (resting at first), the last replacement priced through / at / behind the best price: the setting of the client
+    the order was placed through decides, for every generation of the replacement chain."""
+    bpes, ci, side, gens, last = args
+    best = 3.0 if side == "BACK" else 3.2
+    rest = [4.0, 3.5, 3.8] if side == "BACK" else [2.0, 2.5, 2.2]
+    final = {"through": 2.5 if side == "BACK" else 4.0, "at": best, "behind": 3.6 if side == "BACK" else 2.6}[last]
+    script = {(0, 0): [["P", dict(sel=1, side=side, price=rest[0], size=2.0)]]}
+    for g in range(gens):
+        script[(0, 1 + g)] = [["R", g, final if g == gens - 1 else rest[g + 1]]]
+    spec = simx.MarketSpec(book0={(1, 0): {"atb": [[3.0, 5], [2.8, 5]], "atl": [[3.2, 5], [3.4, 5]]}, (2, 0): {"atb": [[3.0, 5]], "atl": [[3.2, 5]]}})
+    w = simx.SimWorld(
+        [(spec, [[1000, ["Q"]] for _ in range(gens + 2)])],
+        [dict(script=script, client=ci, kw=dict(max_order_exposure=None, max_selection_exposure=None, max_live_trade_count=10**6))],
+        n_clients=2,
+        client_kw={0: dict(best_price_execution=bpes[0]), 1: dict(best_price_execution=bpes[1])},
+    ).run()
+    out = []
+    counts = {"clause:C05.d": 1, "clause:C05.a": 1, "replacement_chains": 1, "chain_lapsed": 0, "chain_filled": 0}
+    case = dict(two_clients=[list(bpes), ci, side, gens, last])
+    bpe = bpes[ci]
+    key = lambda pred: (side, "GTC", bpe, pred)
+    if w.run_exception is not None:
+        out.append(core.v("C05.a", key("exception"), "run raised %r" % (w.run_exception,), case))
+        return dict(violations=out, counts=counts, outcome=None)
+    st = w.strategies[0]
+    lapse_expected = last == "through" and not bpe
+    all_orders = list(w.all_orders())
+    if lapse_expected:
+        # the refused replacement is not kept (its placement failed with the lapse error): nothing anywhere is filled
+        counts["chain_lapsed"] += 1
+        filled = [(x.order_type.price, [tuple(m[1:]) for m in x.simulated.matched]) for x in all_orders if x.simulated.matched]
+        if filled or len(all_orders) > gens + 1:
+            out.append(core.v("C05.d", key("bpe-replacement"), "BPE off for the order's client (the other client: %s), replacement %d of a %s order priced %s through best %s: %d orders, fills %s" % (bpes[1 - ci], gens, side, final, best, len(all_orders), filled), case))
+        return dict(violations=out, counts=counts, outcome=None)
+    if len(st.known) != gens + 1:
+        out.append(core.v("C05.d", key("chain"), "%d orders after %d replacements: %s" % (len(st.known), gens, [e[3] for e in st.log]), case))
+        return dict(violations=out, counts=counts, outcome=None)
+    o = st.known[-1]
+    sm = o.simulated
+    frags = [tuple(m[1:]) for m in sm.matched]
+    if last in ("through", "at"):
+        counts["chain_filled"] += 1
+        if [tuple(f) for f in frags] != [(best, 2.0)] or sm.size_lapsed:
+            out.append(core.v("C05.a", key("replacement-fill"), "BPE %s for the order's client, replacement %d of a %s order priced %s (%s best %s): fills %s lapsed %s" % (bpe, gens, side, final, last, best, frags, sm.size_lapsed), case))
+    else:
+        if frags or sm.size_lapsed:
+            out.append(core.v("C05.a", key("replacement-behind"), "replacement %d of a %s order priced %s behind best %s: fills %s lapsed %s" % (gens, side, final, best, frags, sm.size_lapsed), case))
+    for p_, s_ in frags:
+        if not _sat(side, p_, final):
+            out.append(core.v("C05.a", key("limit"), "%s limit %s filled at %s" % (side, final, p_), case))
+    return dict(violations=out, counts=counts, outcome=None)
+
+
 def _dedup(vs, per_key=2):
     seen, out = {}, []
     for d in vs:
@@ -285,6 +345,14 @@ def run(tier):
         for n in range(1, tlen + 1):
             for seq in itertools.product(AVAIL_EVENTS, repeat=n):
                 jobs.append((lv, True, False, [list(e) for e in seq], "avail"))
+    # the other persistence types (they decide nothing here): small books x BPE, and the resting continuation
+    for pm in sorted(MENU_PERS):
+        for lv in books(2, SIZES_L):
+            for bpe in (True, False):
+                jobs.append((lv, bpe, False, [], pm))
+        for lv in rest_books[1:3]:
+            for seq in itertools.product(TRADES, repeat=1):
+                jobs.append((lv, True, False, [list(e) for e in seq], pm))
     # penny-wide levels (optionally in front of a deep level at the worst price)
     for lv in books(3, (0.01, 0.02), PENNY_LADDER):
         for deep in (None, 50):
@@ -299,6 +367,11 @@ def run(tier):
         placements += len(MENU)
         if r["outcome"]:
             rep.outcomes.add(r["outcome"])
+    tc = [(b, ci, side, g, last) for b in ((True, False), (False, True), (False, False), (True, True)) for ci in (0, 1) for side in ("BACK", "LAY") for g in (1, 2, 3) for last in ("through", "at", "behind")]
+    for r in core.pmap(_two_clients, tc):
+        rep.add_violations(r["violations"])
+        rep.merge_counts(r["counts"])
+    rep.need("replacement_chains", "chain_lapsed", "chain_filled")
     rep.need("crossed_2_levels", "fok_filled", "fok_killed", "bpe_lapsed", "rested", "passive_fills", "available_price_fills")
     rep.sample({"book_levels": bks[200], "bpe": True, "orders": MENU[:3]})
     rep.sample({"book_levels": jobs[-1][0], "trades": jobs[-1][3]})
@@ -324,6 +397,12 @@ def run(tier):
 
 def replay(rep):
     c = rep["case"]
+    if "two_clients" in c:
+        a = c["two_clients"]
+        r = _two_clients((tuple(a[0]), a[1], a[2], a[3], a[4]))
+        for d in r["violations"]:
+            print(d["key"], d["detail"])
+        return 1 if r["violations"] else 0
     r = _one((c["levels"], c["bpe"], c["full_match"], c["trades"], c.get("menu", "std")))
     for d in r["violations"]:
         print(d["key"], d["detail"])
